@@ -33,6 +33,7 @@ set_option linter.unusedVariables false
 namespace ModVerif.Tie.FnEditRep
 open ModVerif ModVerif.GoRt ModVerif.Generated
 open ModVerif.Modfile.Edit (treeIds mapLinesStmt nilId)
+open ModVerif.Drv.GenEdit (Ld ptrOf load loadWork)
 
 export ModVerif.Drv.GenEdit (posG comG comsG posM comM comsM mvG)
 export ModVerif.Tie.FnParseHeap (heapGet_ok_iff heapGet_pos heapGet_le_length heapGet_error heapGet_natCast heapAlloc_fst
@@ -913,5 +914,956 @@ theorem RepFAt.setRequire {h : Edit.Heap} {o : Edit.File} {e : Modfile.Edit.EFil
   replace := R.replace
   retract := R.retract
   tool := R.tool
+
+/-! ## additions (v3): `load_rep` -/
+
+/-! ### `load_rep`: the driver's `load` of a file represents the model's `Edit.load` -/
+
+/-- the statement map of `Edit.shiftSyntax` -/
+def shiftStmt : Modfile.Expr → Modfile.Expr
+  | .line l => .line (Modfile.Edit.shiftLine l)
+  | .lineBlock b => .lineBlock { b with lines := b.lines.map Modfile.Edit.shiftLine }
+  | x => x
+
+theorem shiftSyntax_stmts (fs : Modfile.FileSyntax) : (Modfile.Edit.shiftSyntax fs).stmts = fs.stmts.map shiftStmt := by
+  unfold Modfile.Edit.shiftSyntax
+  simp only
+  apply List.map_congr_left
+  intro x _
+  cases x <;> rfl
+
+theorem treeIds_map_shift (es : List Modfile.Expr) : treeIds (es.map shiftStmt) = (treeIds es).map (· + 1) := by
+  induction es with
+  | nil => rfl
+  | cons x xs ih =>
+    rw [List.map_cons, Modfile.Edit.treeIds_cons, Modfile.Edit.treeIds_cons x xs, ih, List.map_append]
+    congr 1
+    cases x <;> simp [shiftStmt, treeIds, Modfile.Edit.loc, Modfile.Edit.locStmt, Modfile.Edit.shiftLine, List.map_map, Function.comp_def]
+
+/-- statements the loader represents: comment blocks, lines, line blocks -/
+def StmtShape (es : List Modfile.Expr) : Prop :=
+  ∀ e ∈ es, (∃ c, e = .commentBlock c) ∨ (∃ l, e = .line l) ∨ (∃ b, e = .lineBlock b)
+
+/-- allocated objects of the syntax lists are kept -/
+structure HeapLe (h h' : Edit.Heap) : Prop where
+  lines : ∀ p v, heapGet h.lines p = .ok v → heapGet h'.lines p = .ok v
+  blocks : ∀ p v, heapGet h.blocks p = .ok v → heapGet h'.blocks p = .ok v
+  cbs : ∀ p v, heapGet h.cbs p = .ok v → heapGet h'.cbs p = .ok v
+
+theorem HeapLe.refl (h : Edit.Heap) : HeapLe h h := ⟨fun _ _ x => x, fun _ _ x => x, fun _ _ x => x⟩
+theorem HeapLe.trans {a b c : Edit.Heap} (h1 : HeapLe a b) (h2 : HeapLe b c) : HeapLe a c :=
+  ⟨fun p v x => h2.lines p v (h1.lines p v x), fun p v x => h2.blocks p v (h1.blocks p v x), fun p v x => h2.cbs p v (h1.cbs p v x)⟩
+
+theorem RStmts.le {h h' : Edit.Heap} (hl : HeapLe h h') {es : List Edit.Expr} {ss : List Modfile.Expr} (r : RStmts h es ss) :
+    RStmts h' es ss := r.mono hl.lines hl.blocks hl.cbs
+theorem RLines.le {h h' : Edit.Heap} (hl : HeapLe h h') {ps : List Int} {ls : List Modfile.Line} (r : RLines h ps ls) :
+    RLines h' ps ls := r.mono hl.lines
+
+/-- every entry of the id map sends an id to the pointer `id + 1` -/
+def IdsOK (ids : List (Nat × Int)) : Prop := ∀ q ∈ ids, q.2 = ((q.1 + 1 : Nat) : Int)
+
+theorem ptrOf_of_mem {ids : List (Nat × Int)} (hok : IdsOK ids) {id : Nat} (hm : id ∈ ids.map (·.1)) :
+    ptrOf ids id = ((id + 1 : Nat) : Int) := by
+  unfold ptrOf
+  induction ids with
+  | nil => cases hm
+  | cons q t ih =>
+    obtain ⟨a, p⟩ := q
+    simp only [List.lookup]
+    by_cases e : id = a
+    · subst e
+      simp only [beq_self_eq_true, Option.getD_some]
+      exact hok (id, p) List.mem_cons_self
+    · have : (id == a) = false := by simpa using e
+      simp only [this]
+      apply ih (fun q hq => hok q (List.mem_cons_of_mem _ hq))
+      simp only [List.map_cons, List.mem_cons] at hm
+      rcases hm with hm | hm
+      · exact absurd hm e
+      · exact hm
+
+/-- one loading step: objects kept, only the syntax lists grow, the id map stays right and keeps its keys -/
+structure LdStep (s s' : Ld) : Prop where
+  le : HeapLe s.h s'.h
+  frame : s'.h = { s.h with lines := s'.h.lines, blocks := s'.h.blocks, cbs := s'.h.cbs }
+  idsOK : IdsOK s.ids → IdsOK s'.ids
+  keys : ∀ id, id ∈ s.ids.map (·.1) → id ∈ s'.ids.map (·.1)
+  blocksLen : s.h.blocks.length ≤ s'.h.blocks.length
+  linesG : LinesG s.h → LinesG s'.h
+
+theorem LdStep.refl (s : Ld) : LdStep s s := ⟨HeapLe.refl _, rfl, fun x => x, fun _ x => x, Nat.le_refl _, fun x => x⟩
+theorem LdStep.trans {a b c : Ld} (h1 : LdStep a b) (h2 : LdStep b c) : LdStep a c where
+  le := h1.le.trans h2.le
+  frame := by
+    have e1 := h1.frame; have e2 := h2.frame
+    rw [e2, e1]
+  idsOK := fun x => h2.idsOK (h1.idsOK x)
+  keys := fun id x => h2.keys id (h1.keys id x)
+  blocksLen := Nat.le_trans h1.blocksLen h2.blocksLen
+  linesG := fun x => h2.linesG (h1.linesG x)
+
+theorem Ld.line_spec (s : Ld) (l : Modfile.Line) (hid : l.id = s.h.lines.length) :
+    LdStep s (s.line l).1 ∧ RLine (s.line l).1.h (s.line l).2 (Modfile.Edit.shiftLine l) ∧
+      (s.line l).1.h.lines.length = s.h.lines.length + 1 ∧ l.id ∈ (s.line l).1.ids.map (·.1) ∧
+      (s.line l).1.h.blocks = s.h.blocks := by
+  refine ⟨⟨⟨fun p v x => heapGet_alloc_old _ x, fun _ _ x => x, fun _ _ x => x⟩, rfl, ?_, ?_, Nat.le_refl _, fun hG => hG.allocLine l⟩, ⟨?_, ?_⟩, ?_, ?_, rfl⟩
+  · intro hok q hq
+    rcases List.mem_cons.1 hq with rfl | hq
+    · simp [Drv.GenEdit.Ld.line, hid]
+    · exact hok q hq
+  · intro id hm
+    exact List.mem_cons_of_mem _ hm
+  · exact heapGet_alloc_new _ _
+  · simp [Drv.GenEdit.Ld.line, Modfile.Edit.shiftLine, hid]
+  · simp [Drv.GenEdit.Ld.line]
+  · simp [Drv.GenEdit.Ld.line]
+
+theorem Ld.lines_spec : ∀ (ls : List Modfile.Line) (s : Ld) (k : Nat), s.h.lines.length = k →
+    ls.map (·.id) = List.range' k ls.length →
+    LdStep s (s.lines ls).1 ∧ RLines (s.lines ls).1.h (s.lines ls).2 (ls.map Modfile.Edit.shiftLine) ∧
+      (s.lines ls).1.h.lines.length = k + ls.length ∧ (∀ l ∈ ls, l.id ∈ (s.lines ls).1.ids.map (·.1)) ∧
+      (s.lines ls).1.h.blocks = s.h.blocks
+  | [], s, k, hk, _ => ⟨LdStep.refl s, trivial, (by simpa [Drv.GenEdit.Ld.lines] using hk), (fun _ h => nomatch h), rfl⟩
+  | l :: rest, s, k, hk, hids => by
+    simp only [List.map_cons, List.length_cons, List.range'_succ, List.cons.injEq] at hids
+    obtain ⟨h1, h2⟩ := Ld.line_spec s l (by rw [hk]; exact hids.1)
+    obtain ⟨h2, h3, h4, h5⟩ := h2
+    obtain ⟨g1, g2, g3, g4, g5⟩ := Ld.lines_spec rest (s.line l).1 (k + 1) (by rw [h3, hk]) hids.2
+    simp only [Drv.GenEdit.Ld.lines]
+    refine ⟨h1.trans g1, ⟨h2.mono g1.le.lines, g2⟩, (by rw [g3]; simp; omega), ?_, (by rw [g5, h5])⟩
+    intro l' hl'
+    rcases List.mem_cons.1 hl' with rfl | hl'
+    · exact g1.keys _ h4
+    · exact g4 l' hl'
+
+theorem range'_split {l1 l2 : List Nat} {k : Nat} (h : l1 ++ l2 = List.range' k (l1 ++ l2).length) :
+    l1 = List.range' k l1.length ∧ l2 = List.range' (k + l1.length) l2.length := by
+  rw [List.length_append, ← List.range'_append_1] at h
+  exact List.append_inj h (by simp)
+
+theorem treeIds_single_line (l : Modfile.Line) : treeIds [Modfile.Expr.line l] = [l.id] := rfl
+theorem treeIds_single_block (b : Modfile.LineBlock) : treeIds [Modfile.Expr.lineBlock b] = b.lines.map (·.id) := by
+  simp [treeIds, Modfile.Edit.loc, Modfile.Edit.locStmt, List.map_map, Function.comp_def]
+theorem treeIds_single_cb (c : Modfile.CommentBlock) : treeIds [Modfile.Expr.commentBlock c] = [] := rfl
+
+theorem Ld.stmt_block (s : Ld) (b : Modfile.LineBlock) :
+    s.stmt (.lineBlock b) =
+      ({ (s.lines b.lines).1 with
+          h := { (s.lines b.lines).1.h with blocks := (s.lines b.lines).1.h.blocks ++ [blockG b (s.lines b.lines).2] } },
+       .LineBlock (((s.lines b.lines).1.h.blocks.length + 1 : Nat) : Int)) := rfl
+
+/-- what loading one statement does -/
+structure StmtSpec (s : Ld) (x : Modfile.Expr) (k : Nat) : Prop where
+  step : LdStep s (s.stmt x).1
+  rel : RExpr (s.stmt x).1.h (s.stmt x).2 (shiftStmt x)
+  len : (s.stmt x).1.h.lines.length = k + (treeIds [x]).length
+  keys : ∀ id ∈ treeIds [x], id ∈ (s.stmt x).1.ids.map (·.1)
+  bptr : ∀ p ∈ blockPtrs [(s.stmt x).2], s.h.blocks.length < p.toNat ∧ p.toNat ≤ (s.stmt x).1.h.blocks.length
+
+theorem Ld.stmt_spec (s : Ld) (x : Modfile.Expr) (k : Nat) (hk : s.h.lines.length = k)
+    (hshape : (∃ c, x = .commentBlock c) ∨ (∃ l, x = .line l) ∨ (∃ b, x = .lineBlock b))
+    (hids : treeIds [x] = List.range' k (treeIds [x]).length) : StmtSpec s x k := by
+  rcases hshape with ⟨c, rfl⟩ | ⟨l, rfl⟩ | ⟨b, rfl⟩
+  · refine ⟨⟨⟨fun _ _ x => x, fun _ _ x => x, fun p v x => heapGet_alloc_old _ x⟩, rfl, fun x => x, fun _ x => x, Nat.le_refl _, fun x => x⟩, ?_, ?_, ?_, ?_⟩
+    · exact heapGet_alloc_new _ _
+    · simpa [Drv.GenEdit.Ld.stmt, treeIds_single_cb] using hk
+    · intro id hid; cases hid
+    · intro p hp; simp [Drv.GenEdit.Ld.stmt, blockPtrs] at hp
+  · have hid : l.id = s.h.lines.length := by
+      rw [treeIds_single_line] at hids
+      simp at hids
+      omega
+    obtain ⟨h1, h2, h3, h4, h5⟩ := Ld.line_spec s l hid
+    refine ⟨h1, h2, ?_, ?_, ?_⟩
+    · simp only [Drv.GenEdit.Ld.stmt, treeIds_single_line, List.length_singleton]; rw [h3, hk]
+    · intro id hm; rw [treeIds_single_line] at hm; simp only [List.mem_singleton] at hm; subst hm; exact h4
+    · intro p hp; simp [Drv.GenEdit.Ld.stmt, blockPtrs] at hp
+  · rw [treeIds_single_block] at hids
+    simp only [List.length_map] at hids
+    obtain ⟨g1, g2, g3, g4, g5⟩ := Ld.lines_spec b.lines s k hk hids
+    refine ⟨?_, ?_, ?_, ?_, ?_⟩ <;> rw [Ld.stmt_block]
+    · refine g1.trans ⟨⟨fun _ _ x => x, fun p v x => heapGet_alloc_old _ x, fun _ _ x => x⟩, rfl, fun x => x, fun _ x => x, ?_, fun x => x⟩
+      simp
+    · refine ⟨(s.lines b.lines).2, heapGet_alloc_new _ _, ?_⟩
+      exact RLines.mono (h := (s.lines b.lines).1.h)
+        (h' := { (s.lines b.lines).1.h with blocks := (s.lines b.lines).1.h.blocks ++ [blockG b (s.lines b.lines).2] })
+        (fun _ _ x => x) g2
+    · simp only [treeIds_single_block, List.length_map]
+      exact g3
+    · intro id hm
+      rw [treeIds_single_block] at hm
+      obtain ⟨l, hl, rfl⟩ := List.mem_map.1 hm
+      exact g4 l hl
+    · intro p hp
+      simp only [blockPtrs, List.mem_singleton] at hp
+      subst hp
+      simp only [List.length_append, List.length_singleton, g5]
+      omega
+
+theorem blockPtrs_cons (e : Edit.Expr) (es : List Edit.Expr) : blockPtrs (e :: es) = blockPtrs [e] ++ blockPtrs es := by
+  cases e <;> rfl
+
+/-- what loading a statement list does -/
+structure StmtsSpec (s : Ld) (es : List Modfile.Expr) (k : Nat) : Prop where
+  step : LdStep s (s.stmts es).1
+  rel : RStmts (s.stmts es).1.h (s.stmts es).2 (es.map shiftStmt)
+  len : (s.stmts es).1.h.lines.length = k + (treeIds es).length
+  keys : ∀ id ∈ treeIds es, id ∈ (s.stmts es).1.ids.map (·.1)
+  bptr : ∀ p ∈ blockPtrs (s.stmts es).2, s.h.blocks.length < p.toNat ∧ p.toNat ≤ (s.stmts es).1.h.blocks.length
+  nodup : (blockPtrs (s.stmts es).2).Nodup
+
+theorem Ld.stmts_spec : ∀ (es : List Modfile.Expr) (s : Ld) (k : Nat), s.h.lines.length = k → StmtShape es →
+    treeIds es = List.range' k (treeIds es).length → StmtsSpec s es k
+  | [], s, k, hk, _, _ => ⟨LdStep.refl s, trivial, (by simpa [Drv.GenEdit.Ld.stmts, treeIds, Modfile.Edit.loc] using hk),
+      (fun _ h => nomatch h), (fun _ h => nomatch h), List.nodup_nil⟩
+  | x :: xs, s, k, hk, hshape, hids => by
+    rw [Modfile.Edit.treeIds_cons] at hids
+    obtain ⟨hi1, hi2⟩ := range'_split hids
+    have A := Ld.stmt_spec s x k hk (hshape x List.mem_cons_self) hi1
+    have B := Ld.stmts_spec xs (s.stmt x).1 (k + (treeIds [x]).length) A.len
+      (fun e he => hshape e (List.mem_cons_of_mem _ he)) hi2
+    have e1 : (s.stmts (x :: xs)).1 = ((s.stmt x).1.stmts xs).1 := rfl
+    have e2 : (s.stmts (x :: xs)).2 = (s.stmt x).2 :: ((s.stmt x).1.stmts xs).2 := rfl
+    refine ⟨?_, ?_, ?_, ?_, ?_, ?_⟩
+    · rw [e1]; exact A.step.trans B.step
+    · rw [e1, e2]; exact ⟨A.rel.mono B.step.le.lines B.step.le.blocks B.step.le.cbs, B.rel⟩
+    · rw [e1, B.len, Modfile.Edit.treeIds_cons x xs, List.length_append]; omega
+    · intro id hm
+      rw [Modfile.Edit.treeIds_cons] at hm
+      rw [e1]
+      rcases List.mem_append.1 hm with hm | hm
+      · exact B.step.keys id (A.keys id hm)
+      · exact B.keys id hm
+    · intro p hp
+      rw [e2, blockPtrs_cons] at hp
+      rw [e1]
+      rcases List.mem_append.1 hp with hp | hp
+      · have := A.bptr p hp; have := B.step.blocksLen; omega
+      · have := B.bptr p hp; have := A.step.blocksLen; omega
+    · rw [e2, blockPtrs_cons]
+      refine List.nodup_append.2 ⟨?_, B.nodup, ?_⟩
+      · cases (s.stmt x).2 <;> simp [blockPtrs]
+      · intro a ha b hb hab
+        subst hab
+        have := A.bptr a ha; have := B.bptr a hb; omega
+
+/-! the typed part of `load` -/
+
+/-- the pointers `k+1, …, k+n` -/
+def ptrsFrom : Nat → Nat → List Int
+  | _, 0 => []
+  | k, n + 1 => ((k + 1 : Nat) : Int) :: ptrsFrom (k + 1) n
+
+/-- the local `alloc` of `load`: the objects are appended, the pointers are their positions -/
+def allocAll {α : Type} (l : List α) (xs : List α) : List Int × List α :=
+  xs.foldl (fun (acc : List Int × List α) x => let (p, l') := heapAlloc acc.2 x; (acc.1 ++ [p], l')) ([], l)
+
+theorem allocAll_aux {α : Type} : ∀ (xs : List α) (ps : List Int) (l : List α),
+    xs.foldl (fun (acc : List Int × List α) x => let (p, l') := heapAlloc acc.2 x; (acc.1 ++ [p], l')) (ps, l) =
+      (ps ++ ptrsFrom l.length xs.length, l ++ xs)
+  | [], ps, l => by simp [ptrsFrom]
+  | x :: xs, ps, l => by
+    rw [List.foldl_cons]
+    show List.foldl _ (ps ++ [((l.length + 1 : Nat) : Int)], l ++ [x]) xs = _
+    rw [allocAll_aux xs]
+    simp [ptrsFrom]
+
+theorem allocAll_eq {α : Type} (l xs : List α) : allocAll l xs = (ptrsFrom l.length xs.length, l ++ xs) := by
+  unfold allocAll; rw [allocAll_aux]; simp
+
+theorem ptrsFrom_gt : ∀ (k n : Nat) (p : Int), p ∈ ptrsFrom k n → (k : Int) < p
+  | _, 0, _, h => nomatch h
+  | k, n + 1, p, h => by
+    rcases List.mem_cons.1 h with rfl | h
+    · omega
+    · have := ptrsFrom_gt (k + 1) n p h; omega
+
+theorem ptrsFrom_nodup : ∀ (k n : Nat), (ptrsFrom k n).Nodup
+  | _, 0 => List.nodup_nil
+  | k, n + 1 => by
+    refine List.nodup_cons.2 ⟨fun h => ?_, ptrsFrom_nodup (k + 1) n⟩
+    have := ptrsFrom_gt (k + 1) n _ h; omega
+
+theorem REntsL_alloc {α β : Type} (g : β → α) (id : β → Nat) (nl : Nat) : ∀ (ys : List β) (l t : List α),
+    (∀ y ∈ ys, id y ≤ nl) → REntsL (l ++ ys.map g ++ t) g id nl (ptrsFrom l.length ys.length) ys
+  | [], _, _, _ => trivial
+  | y :: ys, l, t, hle => by
+    refine ⟨⟨?_, hle y List.mem_cons_self⟩, ?_⟩
+    · have : l ++ List.map g (y :: ys) ++ t = l ++ [g y] ++ (ys.map g ++ t) := by simp
+      rw [this]
+      exact heapGet_append_old _ (heapGet_alloc_new l (g y))
+    · have h2 := REntsL_alloc g id nl ys (l ++ [g y]) t (fun z hz => hle z (List.mem_cons_of_mem _ hz))
+      simpa using h2
+
+/-- `f.Module`, `f.Go`, `f.Toolchain` of `load` -/
+def optAlloc {α β : Type} (l : List α) (mk : β → α) : Option β → Int × List α
+  | none => (0, l)
+  | some x => heapAlloc l (mk x)
+
+theorem ROpt_alloc {α β : Type} (g : β → α) (id : β → Nat) (nl : Nat) (l : List α) (mk : β → α) (sh : β → β) (x : Option β)
+    (hmk : ∀ y, x = some y → mk y = g (sh y) ∧ id (sh y) ≤ nl) :
+    ROpt (optAlloc l mk x).2 g id nl (optAlloc l mk x).1 (x.map sh) := by
+  cases x with
+  | none => rfl
+  | some y =>
+    obtain ⟨h1, h2⟩ := hmk y rfl
+    refine ⟨?_, h2⟩
+    simp only [optAlloc, heapAlloc_fst, heapAlloc_snd, h1]
+    exact heapGet_alloc_new _ _
+
+/-- `Drv.GenEdit.load` with its local definitions named -/
+def load' (f : Modfile.File) : Edit.Heap × Int :=
+  let r := ({} : Ld).stmts f.syn.stmts
+  let h0 := r.1.h
+  let pt := ptrOf r.1.ids
+  let fsObj : Edit.FileSyntax := { Name := f.syn.name, Comments := comsG f.syn.comments, Stmt := r.2 }
+  let mo := optAlloc h0.modules (fun m : Modfile.Module => ({ Mod := mvG m.mod, Deprecated := m.deprecated, Syntax := pt m.lineId } : Edit.Module)) f.module
+  let go := optAlloc h0.gos (fun g : Modfile.Go => ({ Version := g.version, Syntax := pt g.lineId } : Edit.Go)) f.go
+  let tc := optAlloc h0.toolchains (fun t : Modfile.Toolchain => ({ Name := t.name, Syntax := pt t.lineId } : Edit.Toolchain)) f.toolchain
+  let gd := allocAll h0.godebugs (f.godebug.map fun g => ({ Key := g.key, Value := g.value, Syntax := pt g.lineId } : Edit.Godebug))
+  let rq := allocAll h0.requires (f.require.map fun r => ({ Mod := mvG r.mod, Indirect := r.indirect, Syntax := pt r.lineId } : Edit.Require))
+  let ex := allocAll h0.excludes (f.exclude.map fun r => ({ Mod := mvG r.mod, Syntax := pt r.lineId } : Edit.Exclude))
+  let rp := allocAll h0.replaces (f.replace.map fun r => ({ Old := mvG r.old, New := mvG r.new, Syntax := pt r.lineId } : Edit.Replace))
+  let rt := allocAll h0.retracts (f.retract.map fun r => ({ VersionInterval := { Low := r.interval.low, High := r.interval.high }, Rationale := r.rationale, Syntax := pt r.lineId } : Edit.Retract))
+  let tl := allocAll h0.tools (f.tool.map fun t => ({ Path := t.path, Syntax := pt t.lineId } : Edit.Tool))
+  let o : Edit.File := { Module := mo.1, Go := go.1, Toolchain := tc.1, Godebug := gd.1, Require := rq.1, Exclude := ex.1,
+                         Replace := rp.1, Retract := rt.1, Tool := tl.1, Syntax := ((h0.files.length + 1 : Nat) : Int) }
+  ({ h0 with files := h0.files ++ [fsObj], modules := mo.2, gos := go.2, toolchains := tc.2, godebugs := gd.2, requires := rq.2,
+             excludes := ex.2, replaces := rp.2, retracts := rt.2, tools := tl.2, mods := h0.mods ++ [o] },
+   ((h0.mods.length + 1 : Nat) : Int))
+
+theorem load_eq_load' (f : Modfile.File) : load f = load' f := by
+  unfold Drv.GenEdit.load load'
+  cases f.module <;> cases f.go <;> cases f.toolchain <;> rfl
+
+theorem REnts_allocAll {α β : Type} (g : β → α) (id : β → Nat) (nl : Nat) (l : List α) (mk : β → α) (sh : β → β) (xs : List β)
+    (hmk : ∀ y ∈ xs, mk y = g (sh y) ∧ id (sh y) ≤ nl) :
+    REnts (allocAll l (xs.map mk)).2 g id nl (allocAll l (xs.map mk)).1 (xs.map sh) := by
+  rw [allocAll_eq]
+  have e : xs.map mk = (xs.map sh).map g := by
+    rw [List.map_map]; exact List.map_congr_left fun y hy => (hmk y hy).1
+  refine ⟨?_, ptrsFrom_nodup _ _⟩
+  have := REntsL_alloc g id nl (xs.map sh) l [] (by
+    intro y hy
+    obtain ⟨z, hz, rfl⟩ := List.mem_map.1 hy
+    exact (hmk z hz).2)
+  simp only [List.append_nil, List.length_map] at this ⊢
+  rw [e]; exact this
+
+/-- the largest line id -/
+theorem maxId_eq (fs : Modfile.FileSyntax) : Modfile.Edit.maxId fs = (treeIds fs.stmts).foldl Nat.max 0 := by
+  unfold Modfile.Edit.maxId treeIds
+  rw [Modfile.Edit.allLines_eq_loc, List.foldl_map, List.foldl_map]
+
+theorem foldl_max_range (n : Nat) : ((List.range n).map (· + 1)).foldl Nat.max 0 = n := by
+  induction n with
+  | zero => rfl
+  | succ n ih =>
+    rw [List.range_succ, List.map_append, List.foldl_append, ih]
+    simp [Nat.max_def]
+
+/-- what `load_rep` asks of the file: the statements are comment blocks, lines and blocks; the line ids are `0, 1, …` in
+    source order (the parser's numbering); blocks have a verb; every typed entry points to a line of the tree -/
+structure LoadOK (f : Modfile.File) : Prop where
+  shape : StmtShape f.syn.stmts
+  ids : treeIds f.syn.stmts = List.range (treeIds f.syn.stmts).length
+  tok : BlockTokOK f.syn.stmts
+  module : ∀ m, f.module = some m → m.lineId ∈ treeIds f.syn.stmts
+  go : ∀ g, f.go = some g → g.lineId ∈ treeIds f.syn.stmts
+  toolchain : ∀ t, f.toolchain = some t → t.lineId ∈ treeIds f.syn.stmts
+  godebug : ∀ g ∈ f.godebug, g.lineId ∈ treeIds f.syn.stmts
+  require : ∀ r ∈ f.require, r.lineId ∈ treeIds f.syn.stmts
+  exclude : ∀ r ∈ f.exclude, r.lineId ∈ treeIds f.syn.stmts
+  replace : ∀ r ∈ f.replace, r.lineId ∈ treeIds f.syn.stmts
+  retract : ∀ r ∈ f.retract, r.lineId ∈ treeIds f.syn.stmts
+  tool : ∀ t ∈ f.tool, t.lineId ∈ treeIds f.syn.stmts
+
+theorem BlockTokOK_shift {es : List Modfile.Expr} (h : BlockTokOK es) : BlockTokOK (es.map shiftStmt) := by
+  intro b hb
+  obtain ⟨x, hx, he⟩ := List.mem_map.1 hb
+  cases x with
+  | lineBlock b0 => simp only [shiftStmt, Modfile.Expr.lineBlock.injEq] at he; subst he; exact h b0 hx
+  | line l => cases he
+  | commentBlock _ => cases he
+  | lparen _ => cases he
+  | rparen _ => cases he
+
+/-- **the driver's `load` represents the model's `Edit.load`**: pointers are the renumbered ids (`id + 1`) -/
+theorem load_rep (f : Modfile.File) (ok : LoadOK f) : RepF (load f).1 (load f).2 (Modfile.Edit.load f) := by
+  rw [load_eq_load']
+  have hids : treeIds f.syn.stmts = List.range' 0 (treeIds f.syn.stmts).length := by
+    rw [← List.range_eq_range']; exact ok.ids
+  have S := Ld.stmts_spec f.syn.stmts {} 0 rfl ok.shape hids
+  have hok : IdsOK (({} : Ld).stmts f.syn.stmts).1.ids := S.step.idsOK (fun _ h => nomatch h)
+  have hlen : (({} : Ld).stmts f.syn.stmts).1.h.lines.length = (treeIds f.syn.stmts).length := by rw [S.len]; omega
+  have hpt : ∀ id, id ∈ treeIds f.syn.stmts →
+      ptrOf (({} : Ld).stmts f.syn.stmts).1.ids id = ((id + 1 : Nat) : Int) ∧
+      id + 1 ≤ (({} : Ld).stmts f.syn.stmts).1.h.lines.length := by
+    intro id hm
+    refine ⟨ptrOf_of_mem hok (S.keys id hm), ?_⟩
+    rw [hlen]
+    rw [ok.ids] at hm
+    have := List.mem_range.1 hm
+    omega
+  refine ⟨_, heapGet_alloc_new _ _, ?_⟩
+  refine
+    { syn := ⟨(({} : Ld).stmts f.syn.stmts).2, heapGet_alloc_new _ _, ?_, S.nodup, ?_⟩
+      tok := by rw [Modfile.Edit.load]; simp only [shiftSyntax_stmts]; exact BlockTokOK_shift ok.tok
+      linesG := S.step.linesG (fun _ h => nomatch h)
+      next := ?_
+      module := ?_, go := ?_, toolchain := ?_, godebug := ?_, require := ?_, exclude := ?_, replace := ?_, retract := ?_, tool := ?_ }
+  · show RStmts _ _ (Modfile.Edit.shiftSyntax f.syn).stmts
+    rw [shiftSyntax_stmts]
+    exact RStmts.congr (h := (({} : Ld).stmts f.syn.stmts).1.h) (h' := (load' f).1) rfl rfl rfl S.rel
+  · show (treeIds (Modfile.Edit.shiftSyntax f.syn).stmts).Nodup
+    rw [shiftSyntax_stmts, treeIds_map_shift, ok.ids]
+    exact List.Pairwise.map (fun x => x + 1) (fun a b (h : a ≠ b) => by simpa using h) List.nodup_range
+  · show Modfile.Edit.maxId (Modfile.Edit.shiftSyntax f.syn) + 1 = (({} : Ld).stmts f.syn.stmts).1.h.lines.length + 1
+    rw [maxId_eq, shiftSyntax_stmts, treeIds_map_shift, ok.ids, foldl_max_range, hlen]
+  · exact ROpt_alloc moduleG (·.lineId) _ _ _ (fun m => { m with lineId := m.lineId + 1 }) f.module (fun y hy => by
+      obtain ⟨h1, h2⟩ := hpt y.lineId (ok.module y hy)
+      exact ⟨by simp only [moduleG, h1], h2⟩)
+  · exact ROpt_alloc goG (·.lineId) _ _ _ (fun m => { m with lineId := m.lineId + 1 }) f.go (fun y hy => by
+      obtain ⟨h1, h2⟩ := hpt y.lineId (ok.go y hy)
+      exact ⟨by simp only [goG, h1], h2⟩)
+  · exact ROpt_alloc toolchainG (·.lineId) _ _ _ (fun m => { m with lineId := m.lineId + 1 }) f.toolchain (fun y hy => by
+      obtain ⟨h1, h2⟩ := hpt y.lineId (ok.toolchain y hy)
+      exact ⟨by simp only [toolchainG, h1], h2⟩)
+  · exact REnts_allocAll godebugG (·.lineId) _ _ _ (fun m => { m with lineId := m.lineId + 1 }) f.godebug (fun y hy => by
+      obtain ⟨h1, h2⟩ := hpt y.lineId (ok.godebug y hy)
+      exact ⟨by simp only [godebugG, h1], h2⟩)
+  · exact REnts_allocAll requireG (·.lineId) _ _ _ (fun m => { m with lineId := m.lineId + 1 }) f.require (fun y hy => by
+      obtain ⟨h1, h2⟩ := hpt y.lineId (ok.require y hy)
+      exact ⟨by simp only [requireG, h1], h2⟩)
+  · exact REnts_allocAll excludeG (·.lineId) _ _ _ (fun m => { m with lineId := m.lineId + 1 }) f.exclude (fun y hy => by
+      obtain ⟨h1, h2⟩ := hpt y.lineId (ok.exclude y hy)
+      exact ⟨by simp only [excludeG, h1], h2⟩)
+  · exact REnts_allocAll replaceG (·.lineId) _ _ _ (fun m => { m with lineId := m.lineId + 1 }) f.replace (fun y hy => by
+      obtain ⟨h1, h2⟩ := hpt y.lineId (ok.replace y hy)
+      exact ⟨by simp only [replaceG, h1], h2⟩)
+  · exact REnts_allocAll retractG (·.lineId) _ _ _ (fun m => { m with lineId := m.lineId + 1 }) f.retract (fun y hy => by
+      obtain ⟨h1, h2⟩ := hpt y.lineId (ok.retract y hy)
+      exact ⟨by simp only [retractG, h1], h2⟩)
+  · exact REnts_allocAll toolG (·.lineId) _ _ _ (fun m => { m with lineId := m.lineId + 1 }) f.tool (fun y hy => by
+      obtain ⟨h1, h2⟩ := hpt y.lineId (ok.tool y hy)
+      exact ⟨by simp only [toolG, h1], h2⟩)
+
+/-- `LoadOK` as a Boolean test (for concrete files: `decide +kernel`) -/
+def loadOKB (f : Modfile.File) : Bool :=
+  let T := treeIds f.syn.stmts
+  f.syn.stmts.all (fun e => match e with | .commentBlock _ | .line _ | .lineBlock _ => true | _ => false) &&
+  decide (T = List.range T.length) &&
+  f.syn.stmts.all (fun e => match e with | .lineBlock b => !b.token.isEmpty | _ => true) &&
+  (match f.module with | some m => T.contains m.lineId | none => true) &&
+  (match f.go with | some m => T.contains m.lineId | none => true) &&
+  (match f.toolchain with | some m => T.contains m.lineId | none => true) &&
+  f.godebug.all (fun x => T.contains x.lineId) && f.require.all (fun x => T.contains x.lineId) &&
+  f.exclude.all (fun x => T.contains x.lineId) && f.replace.all (fun x => T.contains x.lineId) &&
+  f.retract.all (fun x => T.contains x.lineId) && f.tool.all (fun x => T.contains x.lineId)
+
+theorem loadOKB_sound {f : Modfile.File} (h : loadOKB f = true) : LoadOK f := by
+  unfold loadOKB at h
+  simp only [Bool.and_eq_true, List.all_eq_true, decide_eq_true_eq, List.contains_iff_mem] at h
+  obtain ⟨⟨⟨⟨⟨⟨⟨⟨⟨⟨⟨h1, h2⟩, h3⟩, h4⟩, h5⟩, h6⟩, h7⟩, h8⟩, h9⟩, h10⟩, h11⟩, h12⟩ := h
+  refine ⟨?_, h2, ?_, ?_, ?_, ?_, fun x hx => by simpa using h7 x hx, fun x hx => by simpa using h8 x hx,
+    fun x hx => by simpa using h9 x hx, fun x hx => by simpa using h10 x hx, fun x hx => by simpa using h11 x hx,
+    fun x hx => by simpa using h12 x hx⟩
+  · intro e he
+    have := h1 e he
+    cases e with
+    | commentBlock c => exact Or.inl ⟨c, rfl⟩
+    | line l => exact Or.inr (Or.inl ⟨l, rfl⟩)
+    | lineBlock b => exact Or.inr (Or.inr ⟨b, rfl⟩)
+    | lparen _ => simp at this
+    | rparen _ => simp at this
+  · intro b hb
+    have := h3 _ hb
+    simpa using this
+  · intro m hm; rw [hm] at h4; simpa using h4
+  · intro m hm; rw [hm] at h5; simpa using h5
+  · intro m hm; rw [hm] at h6; simpa using h6
+/-! ## additions (v4): `loadWork_rep` (go.work) -/
+
+/-- `Drv.GenEdit.loadWork` with its local definitions named -/
+def loadWork' (f : Modfile.WorkFile) : Edit.Heap × Int :=
+  let r := ({} : Ld).stmts f.syn.stmts
+  let h0 := r.1.h
+  let pt := ptrOf r.1.ids
+  let fsObj : Edit.FileSyntax := { Name := f.syn.name, Comments := comsG f.syn.comments, Stmt := r.2 }
+  let go := optAlloc h0.gos (fun g : Modfile.Go => ({ Version := g.version, Syntax := pt g.lineId } : Edit.Go)) f.go
+  let tc := optAlloc h0.toolchains (fun t : Modfile.Toolchain => ({ Name := t.name, Syntax := pt t.lineId } : Edit.Toolchain)) f.toolchain
+  let gd := allocAll h0.godebugs (f.godebug.map fun g => ({ Key := g.key, Value := g.value, Syntax := pt g.lineId } : Edit.Godebug))
+  let us := allocAll h0.uses (f.use.map fun u => ({ Path := u.path, ModulePath := u.modulePath, Syntax := pt u.lineId } : Edit.Use))
+  let rp := allocAll h0.replaces (f.replace.map fun r => ({ Old := mvG r.old, New := mvG r.new, Syntax := pt r.lineId } : Edit.Replace))
+  let o : Edit.WorkFile := { Go := go.1, Toolchain := tc.1, Godebug := gd.1, Use := us.1, Replace := rp.1,
+                             Syntax := ((h0.files.length + 1 : Nat) : Int) }
+  ({ h0 with files := h0.files ++ [fsObj], gos := go.2, toolchains := tc.2, godebugs := gd.2, uses := us.2, replaces := rp.2,
+             works := h0.works ++ [o] },
+   ((h0.works.length + 1 : Nat) : Int))
+
+theorem loadWork_eq_loadWork' (f : Modfile.WorkFile) : loadWork f = loadWork' f := by
+  unfold Drv.GenEdit.loadWork loadWork'
+  cases f.go <;> cases f.toolchain <;> rfl
+
+structure LoadWorkOK (f : Modfile.WorkFile) : Prop where
+  shape : StmtShape f.syn.stmts
+  ids : treeIds f.syn.stmts = List.range (treeIds f.syn.stmts).length
+  tok : BlockTokOK f.syn.stmts
+  go : ∀ g, f.go = some g → g.lineId ∈ treeIds f.syn.stmts
+  toolchain : ∀ t, f.toolchain = some t → t.lineId ∈ treeIds f.syn.stmts
+  godebug : ∀ g ∈ f.godebug, g.lineId ∈ treeIds f.syn.stmts
+  use : ∀ r ∈ f.use, r.lineId ∈ treeIds f.syn.stmts
+  replace : ∀ r ∈ f.replace, r.lineId ∈ treeIds f.syn.stmts
+
+/-- **the driver's `loadWork` represents the model's `Edit.loadWork`** -/
+theorem loadWork_rep (f : Modfile.WorkFile) (ok : LoadWorkOK f) : RepW (loadWork f).1 (loadWork f).2 (Modfile.Edit.loadWork f) := by
+  rw [loadWork_eq_loadWork']
+  have hids : treeIds f.syn.stmts = List.range' 0 (treeIds f.syn.stmts).length := by
+    rw [← List.range_eq_range']; exact ok.ids
+  have S := Ld.stmts_spec f.syn.stmts {} 0 rfl ok.shape hids
+  have hok : IdsOK (({} : Ld).stmts f.syn.stmts).1.ids := S.step.idsOK (fun _ h => nomatch h)
+  have hlen : (({} : Ld).stmts f.syn.stmts).1.h.lines.length = (treeIds f.syn.stmts).length := by rw [S.len]; omega
+  have hpt : ∀ id, id ∈ treeIds f.syn.stmts →
+      ptrOf (({} : Ld).stmts f.syn.stmts).1.ids id = ((id + 1 : Nat) : Int) ∧
+      id + 1 ≤ (({} : Ld).stmts f.syn.stmts).1.h.lines.length := by
+    intro id hm
+    refine ⟨ptrOf_of_mem hok (S.keys id hm), ?_⟩
+    rw [hlen]
+    rw [ok.ids] at hm
+    have := List.mem_range.1 hm
+    omega
+  refine ⟨_, heapGet_alloc_new _ _, ?_⟩
+  refine
+    { syn := ⟨(({} : Ld).stmts f.syn.stmts).2, heapGet_alloc_new _ _, ?_, S.nodup, ?_⟩
+      tok := by rw [Modfile.Edit.loadWork]; simp only [shiftSyntax_stmts]; exact BlockTokOK_shift ok.tok
+      linesG := S.step.linesG (fun _ h => nomatch h)
+      next := ?_
+      go := ?_, toolchain := ?_, godebug := ?_, use := ?_, replace := ?_ }
+  · show RStmts _ _ (Modfile.Edit.shiftSyntax f.syn).stmts
+    rw [shiftSyntax_stmts]
+    exact RStmts.congr (h := (({} : Ld).stmts f.syn.stmts).1.h) (h' := (loadWork' f).1) rfl rfl rfl S.rel
+  · show (treeIds (Modfile.Edit.shiftSyntax f.syn).stmts).Nodup
+    rw [shiftSyntax_stmts, treeIds_map_shift, ok.ids]
+    exact List.Pairwise.map (fun x => x + 1) (fun a b (h : a ≠ b) => by simpa using h) List.nodup_range
+  · show Modfile.Edit.maxId (Modfile.Edit.shiftSyntax f.syn) + 1 = (({} : Ld).stmts f.syn.stmts).1.h.lines.length + 1
+    rw [maxId_eq, shiftSyntax_stmts, treeIds_map_shift, ok.ids, foldl_max_range, hlen]
+  · exact ROpt_alloc goG (·.lineId) _ _ _ (fun m => { m with lineId := m.lineId + 1 }) f.go (fun y hy => by
+      obtain ⟨h1, h2⟩ := hpt y.lineId (ok.go y hy)
+      exact ⟨by simp only [goG, h1], h2⟩)
+  · exact ROpt_alloc toolchainG (·.lineId) _ _ _ (fun m => { m with lineId := m.lineId + 1 }) f.toolchain (fun y hy => by
+      obtain ⟨h1, h2⟩ := hpt y.lineId (ok.toolchain y hy)
+      exact ⟨by simp only [toolchainG, h1], h2⟩)
+  · exact REnts_allocAll godebugG (·.lineId) _ _ _ (fun m => { m with lineId := m.lineId + 1 }) f.godebug (fun y hy => by
+      obtain ⟨h1, h2⟩ := hpt y.lineId (ok.godebug y hy)
+      exact ⟨by simp only [godebugG, h1], h2⟩)
+  · exact REnts_allocAll useG (·.lineId) _ _ _ (fun m => { m with lineId := m.lineId + 1 }) f.use (fun y hy => by
+      obtain ⟨h1, h2⟩ := hpt y.lineId (ok.use y hy)
+      exact ⟨by simp only [useG, h1], h2⟩)
+  · exact REnts_allocAll replaceG (·.lineId) _ _ _ (fun m => { m with lineId := m.lineId + 1 }) f.replace (fun y hy => by
+      obtain ⟨h1, h2⟩ := hpt y.lineId (ok.replace y hy)
+      exact ⟨by simp only [replaceG, h1], h2⟩)
+
+def loadWorkOKB (f : Modfile.WorkFile) : Bool :=
+  let T := treeIds f.syn.stmts
+  f.syn.stmts.all (fun e => match e with | .commentBlock _ | .line _ | .lineBlock _ => true | _ => false) &&
+  decide (T = List.range T.length) &&
+  f.syn.stmts.all (fun e => match e with | .lineBlock b => !b.token.isEmpty | _ => true) &&
+  (match f.go with | some m => T.contains m.lineId | none => true) &&
+  (match f.toolchain with | some m => T.contains m.lineId | none => true) &&
+  f.godebug.all (fun x => T.contains x.lineId) && f.use.all (fun x => T.contains x.lineId) &&
+  f.replace.all (fun x => T.contains x.lineId)
+
+theorem loadWorkOKB_sound {f : Modfile.WorkFile} (h : loadWorkOKB f = true) : LoadWorkOK f := by
+  unfold loadWorkOKB at h
+  simp only [Bool.and_eq_true, List.all_eq_true, decide_eq_true_eq, List.contains_iff_mem] at h
+  obtain ⟨⟨⟨⟨⟨⟨⟨h1, h2⟩, h3⟩, h5⟩, h6⟩, h7⟩, h8⟩, h9⟩ := h
+  refine ⟨?_, h2, ?_, ?_, ?_, fun x hx => by simpa using h7 x hx, fun x hx => by simpa using h8 x hx,
+    fun x hx => by simpa using h9 x hx⟩
+  · intro e he
+    have := h1 e he
+    cases e with
+    | commentBlock c => exact Or.inl ⟨c, rfl⟩
+    | line l => exact Or.inr (Or.inl ⟨l, rfl⟩)
+    | lineBlock b => exact Or.inr (Or.inr ⟨b, rfl⟩)
+    | lparen _ => simp at this
+    | rparen _ => simp at this
+  · intro b hb
+    have := h3 _ hb
+    simpa using this
+  · intro m hm; rw [hm] at h5; simpa using h5
+  · intro m hm; rw [hm] at h6; simpa using h6
+
+/-! ## additions (v5): the driver's read-back (`synM`) of a represented graph is the model tree -/
+
+theorem RLine.lineM {h : Edit.Heap} {p : Int} {l : Modfile.Line} (r : RLine h p l) : Drv.GenEdit.lineM h p = some l := by
+  unfold Drv.GenEdit.lineM
+  rw [r.1]
+  obtain ⟨id, c, s, t, ib, e⟩ := l
+  have := r.toNat
+  simp only at this
+  simp [lineG, this]
+
+theorem RLines.mapM {h : Edit.Heap} : ∀ {ps : List Int} {ls : List Modfile.Line}, RLines h ps ls →
+    ps.mapM (Drv.GenEdit.lineM h) = some ls
+  | [], [], _ => rfl
+  | _ :: _, _ :: _, r => by
+    rw [List.mapM_cons, r.1.lineM, RLines.mapM r.2]; rfl
+  | [], _ :: _, r => r.elim
+  | _ :: _, [], r => r.elim
+
+theorem RExpr.exprM {h : Edit.Heap} {e : Edit.Expr} {s : Modfile.Expr} (r : RExpr h e s) : Drv.GenEdit.exprM h e = some s := by
+  cases e <;> cases s <;> simp only [RExpr] at r <;> try exact r.elim
+  · rename_i p c
+    simp only [Drv.GenEdit.exprM, r]
+    obtain ⟨cc, cs⟩ := c
+    simp [cbG]
+  · rename_i p l
+    simp only [Drv.GenEdit.exprM, r.lineM]; rfl
+  · rename_i p b
+    obtain ⟨ps, r1, r2⟩ := r
+    simp only [Drv.GenEdit.exprM, r1, blockG_Line, r2.mapM]
+    obtain ⟨c, s, ⟨lc, lp⟩, t, ls, ⟨rc, rp⟩⟩ := b
+    simp [blockG, lparenG, rparenG, bind, Option.bind, pure]
+
+theorem RStmts.mapM {h : Edit.Heap} : ∀ {es : List Edit.Expr} {ss : List Modfile.Expr}, RStmts h es ss →
+    es.mapM (Drv.GenEdit.exprM h) = some ss
+  | [], [], _ => rfl
+  | _ :: _, _ :: _, r => by
+    rw [List.mapM_cons, r.1.exprM, RStmts.mapM r.2]; rfl
+  | [], _ :: _, r => r.elim
+  | _ :: _, [], r => r.elim
+
+/-- the driver reads a represented graph back as the model tree (line ids = pointers) -/
+theorem RepSyn.synM {h : Edit.Heap} {p : Int} {fs : Modfile.FileSyntax} (r : RepSyn h p fs) : Drv.GenEdit.synM h p = some fs := by
+  obtain ⟨es, r⟩ := r
+  simp only [Drv.GenEdit.synM, r.file, fileG_Stmt, r.stmts.mapM]
+  obtain ⟨n, c, s⟩ := fs
+  simp [fileG, bind, Option.bind, pure]
+
+/-! ## additions (v6): rebuilding `RepFAt` / `RepWAt` after a step -/
+
+/-- the typed object lists are the same in both heaps -/
+structure SameTyped (h h' : Edit.Heap) : Prop where
+  modules : h'.modules = h.modules
+  gos : h'.gos = h.gos
+  toolchains : h'.toolchains = h.toolchains
+  godebugs : h'.godebugs = h.godebugs
+  requires : h'.requires = h.requires
+  excludes : h'.excludes = h.excludes
+  replaces : h'.replaces = h.replaces
+  retracts : h'.retracts = h.retracts
+  tools : h'.tools = h.tools
+  uses : h'.uses = h.uses
+
+theorem SameTyped.refl (h : Edit.Heap) : SameTyped h h := ⟨rfl, rfl, rfl, rfl, rfl, rfl, rfl, rfl, rfl, rfl⟩
+theorem SameTyped.trans {a b c : Edit.Heap} (h1 : SameTyped a b) (h2 : SameTyped b c) : SameTyped a c :=
+  ⟨h2.modules.trans h1.modules, h2.gos.trans h1.gos, h2.toolchains.trans h1.toolchains, h2.godebugs.trans h1.godebugs,
+   h2.requires.trans h1.requires, h2.excludes.trans h1.excludes, h2.replaces.trans h1.replaces, h2.retracts.trans h1.retracts,
+   h2.tools.trans h1.tools, h2.uses.trans h1.uses⟩
+theorem SameTyped.setLineH (h : Edit.Heap) (p : Int) (l : Modfile.Line) : SameTyped h (FnEditRep.setLineH h p l) :=
+  ⟨rfl, rfl, rfl, rfl, rfl, rfl, rfl, rfl, rfl, rfl⟩
+
+theorem REnts.congrLen {α β : Type} {objs : List α} {g : β → α} {id : β → Nat} {nl nl' : Nat} {ps : List Int} {xs : List β}
+    (r : REnts objs g id nl ps xs) (hn : nl ≤ nl') : REnts objs g id nl' ps xs := r.mono (fun _ _ x => x) hn
+theorem ROpt.congrLen {α β : Type} {objs : List α} {g : β → α} {id : β → Nat} {nl nl' : Nat} {p : Int} {x : Option β}
+    (r : ROpt objs g id nl p x) (hn : nl ≤ nl') : ROpt objs g id nl' p x := r.mono (fun _ _ x => x) hn
+
+/-- **a step that changed only the syntax graph** (lines, blocks, comment blocks, the `FileSyntax` object; lines may have
+    been allocated): the file represents the model with the new tree and the counter `lines.length + 1` -/
+theorem RepFAt.ofSyn {h h' : Edit.Heap} {o : Edit.File} {e : Modfile.Edit.EFile} (R : RepFAt h o e) (st : SameTyped h h')
+    (hlen : h.lines.length ≤ h'.lines.length) {syn' : Modfile.FileSyntax} (hs : RepSyn h' o.Syntax syn')
+    (ht : BlockTokOK syn'.stmts) (hG : LinesG h') :
+    RepFAt h' o { f := { e.f with syn := syn' }, next := h'.lines.length + 1 } where
+  syn := hs
+  tok := ht
+  linesG := hG
+  next := rfl
+  module := by rw [st.modules]; exact R.module.congrLen hlen
+  go := by rw [st.gos]; exact R.go.congrLen hlen
+  toolchain := by rw [st.toolchains]; exact R.toolchain.congrLen hlen
+  godebug := by rw [st.godebugs]; exact R.godebug.congrLen hlen
+  require := by rw [st.requires]; exact R.require.congrLen hlen
+  exclude := by rw [st.excludes]; exact R.exclude.congrLen hlen
+  replace := by rw [st.replaces]; exact R.replace.congrLen hlen
+  retract := by rw [st.retracts]; exact R.retract.congrLen hlen
+  tool := by rw [st.tools]; exact R.tool.congrLen hlen
+
+theorem RepWAt.ofSyn {h h' : Edit.Heap} {o : Edit.WorkFile} {e : Modfile.Edit.EWork} (R : RepWAt h o e) (st : SameTyped h h')
+    (hlen : h.lines.length ≤ h'.lines.length) {syn' : Modfile.FileSyntax} (hs : RepSyn h' o.Syntax syn')
+    (ht : BlockTokOK syn'.stmts) (hG : LinesG h') :
+    RepWAt h' o { f := { e.f with syn := syn' }, next := h'.lines.length + 1 } where
+  syn := hs
+  tok := ht
+  linesG := hG
+  next := rfl
+  go := by rw [st.gos]; exact R.go.congrLen hlen
+  toolchain := by rw [st.toolchains]; exact R.toolchain.congrLen hlen
+  godebug := by rw [st.godebugs]; exact R.godebug.congrLen hlen
+  use := by rw [st.uses]; exact R.use.congrLen hlen
+  replace := by rw [st.replaces]; exact R.replace.congrLen hlen
+
+/-- the `File` / `WorkFile` objects themselves are not part of the representation: `mods` / `works` may change freely -/
+theorem RepFAt.congrMods {h : Edit.Heap} {o : Edit.File} {e : Modfile.Edit.EFile} (R : RepFAt h o e) (ms : List Edit.File) :
+    RepFAt { h with mods := ms } o e :=
+  ⟨RepSyn.congr (h := h) (h' := { h with mods := ms }) rfl rfl rfl rfl R.syn, R.tok,
+   LinesG.congr (h := h) (h' := { h with mods := ms }) R.linesG rfl, R.next, R.module, R.go, R.toolchain, R.godebug, R.require,
+   R.exclude, R.replace, R.retract, R.tool⟩
+
+theorem RepWAt.congrWorks {h : Edit.Heap} {o : Edit.WorkFile} {e : Modfile.Edit.EWork} (R : RepWAt h o e) (ws : List Edit.WorkFile) :
+    RepWAt { h with works := ws } o e :=
+  ⟨RepSyn.congr (h := h) (h' := { h with works := ws }) rfl rfl rfl rfl R.syn, R.tok,
+   LinesG.congr (h := h) (h' := { h with works := ws }) R.linesG rfl, R.next, R.go, R.toolchain, R.godebug, R.use, R.replace⟩
+
+/-! one typed component is replaced (object list, pointer field of the `File` object, model list) -/
+
+theorem RepFAt.withModule {h : Edit.Heap} {o : Edit.File} {e : Modfile.Edit.EFile} (R : RepFAt h o e) {l' : List Edit.Module} {p' : Int} {x' : Option Modfile.Module}
+    (hr : ROpt l' moduleG (·.lineId) h.lines.length p' x') :
+    RepFAt { h with modules := l' } { o with Module := p' } { e with f := { e.f with module := x' } } where
+  syn := RepSyn.congr (h := h) (h' := { h with modules := l' }) rfl rfl rfl rfl R.syn
+  tok := R.tok
+  linesG := LinesG.congr (h := h) (h' := { h with modules := l' }) R.linesG rfl
+  next := R.next
+  module := hr
+  go := R.go
+  toolchain := R.toolchain
+  godebug := R.godebug
+  require := R.require
+  exclude := R.exclude
+  replace := R.replace
+  retract := R.retract
+  tool := R.tool
+
+theorem RepFAt.withGo {h : Edit.Heap} {o : Edit.File} {e : Modfile.Edit.EFile} (R : RepFAt h o e) {l' : List Edit.Go} {p' : Int} {x' : Option Modfile.Go}
+    (hr : ROpt l' goG (·.lineId) h.lines.length p' x') :
+    RepFAt { h with gos := l' } { o with Go := p' } { e with f := { e.f with go := x' } } where
+  syn := RepSyn.congr (h := h) (h' := { h with gos := l' }) rfl rfl rfl rfl R.syn
+  tok := R.tok
+  linesG := LinesG.congr (h := h) (h' := { h with gos := l' }) R.linesG rfl
+  next := R.next
+  module := R.module
+  go := hr
+  toolchain := R.toolchain
+  godebug := R.godebug
+  require := R.require
+  exclude := R.exclude
+  replace := R.replace
+  retract := R.retract
+  tool := R.tool
+
+theorem RepFAt.withToolchain {h : Edit.Heap} {o : Edit.File} {e : Modfile.Edit.EFile} (R : RepFAt h o e) {l' : List Edit.Toolchain} {p' : Int} {x' : Option Modfile.Toolchain}
+    (hr : ROpt l' toolchainG (·.lineId) h.lines.length p' x') :
+    RepFAt { h with toolchains := l' } { o with Toolchain := p' } { e with f := { e.f with toolchain := x' } } where
+  syn := RepSyn.congr (h := h) (h' := { h with toolchains := l' }) rfl rfl rfl rfl R.syn
+  tok := R.tok
+  linesG := LinesG.congr (h := h) (h' := { h with toolchains := l' }) R.linesG rfl
+  next := R.next
+  module := R.module
+  go := R.go
+  toolchain := hr
+  godebug := R.godebug
+  require := R.require
+  exclude := R.exclude
+  replace := R.replace
+  retract := R.retract
+  tool := R.tool
+
+theorem RepFAt.withGodebug {h : Edit.Heap} {o : Edit.File} {e : Modfile.Edit.EFile} (R : RepFAt h o e) {l' : List Edit.Godebug} {ps' : List Int} {xs' : List Modfile.Godebug}
+    (hr : REnts l' godebugG (·.lineId) h.lines.length ps' xs') :
+    RepFAt { h with godebugs := l' } { o with Godebug := ps' } { e with f := { e.f with godebug := xs' } } where
+  syn := RepSyn.congr (h := h) (h' := { h with godebugs := l' }) rfl rfl rfl rfl R.syn
+  tok := R.tok
+  linesG := LinesG.congr (h := h) (h' := { h with godebugs := l' }) R.linesG rfl
+  next := R.next
+  module := R.module
+  go := R.go
+  toolchain := R.toolchain
+  godebug := hr
+  require := R.require
+  exclude := R.exclude
+  replace := R.replace
+  retract := R.retract
+  tool := R.tool
+
+theorem RepFAt.withRequire {h : Edit.Heap} {o : Edit.File} {e : Modfile.Edit.EFile} (R : RepFAt h o e) {l' : List Edit.Require} {ps' : List Int} {xs' : List Modfile.Require}
+    (hr : REnts l' requireG (·.lineId) h.lines.length ps' xs') :
+    RepFAt { h with requires := l' } { o with Require := ps' } { e with f := { e.f with require := xs' } } where
+  syn := RepSyn.congr (h := h) (h' := { h with requires := l' }) rfl rfl rfl rfl R.syn
+  tok := R.tok
+  linesG := LinesG.congr (h := h) (h' := { h with requires := l' }) R.linesG rfl
+  next := R.next
+  module := R.module
+  go := R.go
+  toolchain := R.toolchain
+  godebug := R.godebug
+  require := hr
+  exclude := R.exclude
+  replace := R.replace
+  retract := R.retract
+  tool := R.tool
+
+theorem RepFAt.withExclude {h : Edit.Heap} {o : Edit.File} {e : Modfile.Edit.EFile} (R : RepFAt h o e) {l' : List Edit.Exclude} {ps' : List Int} {xs' : List Modfile.Exclude}
+    (hr : REnts l' excludeG (·.lineId) h.lines.length ps' xs') :
+    RepFAt { h with excludes := l' } { o with Exclude := ps' } { e with f := { e.f with exclude := xs' } } where
+  syn := RepSyn.congr (h := h) (h' := { h with excludes := l' }) rfl rfl rfl rfl R.syn
+  tok := R.tok
+  linesG := LinesG.congr (h := h) (h' := { h with excludes := l' }) R.linesG rfl
+  next := R.next
+  module := R.module
+  go := R.go
+  toolchain := R.toolchain
+  godebug := R.godebug
+  require := R.require
+  exclude := hr
+  replace := R.replace
+  retract := R.retract
+  tool := R.tool
+
+theorem RepFAt.withReplace {h : Edit.Heap} {o : Edit.File} {e : Modfile.Edit.EFile} (R : RepFAt h o e) {l' : List Edit.Replace} {ps' : List Int} {xs' : List Modfile.Replace}
+    (hr : REnts l' replaceG (·.lineId) h.lines.length ps' xs') :
+    RepFAt { h with replaces := l' } { o with Replace := ps' } { e with f := { e.f with replace := xs' } } where
+  syn := RepSyn.congr (h := h) (h' := { h with replaces := l' }) rfl rfl rfl rfl R.syn
+  tok := R.tok
+  linesG := LinesG.congr (h := h) (h' := { h with replaces := l' }) R.linesG rfl
+  next := R.next
+  module := R.module
+  go := R.go
+  toolchain := R.toolchain
+  godebug := R.godebug
+  require := R.require
+  exclude := R.exclude
+  replace := hr
+  retract := R.retract
+  tool := R.tool
+
+theorem RepFAt.withRetract {h : Edit.Heap} {o : Edit.File} {e : Modfile.Edit.EFile} (R : RepFAt h o e) {l' : List Edit.Retract} {ps' : List Int} {xs' : List Modfile.Retract}
+    (hr : REnts l' retractG (·.lineId) h.lines.length ps' xs') :
+    RepFAt { h with retracts := l' } { o with Retract := ps' } { e with f := { e.f with retract := xs' } } where
+  syn := RepSyn.congr (h := h) (h' := { h with retracts := l' }) rfl rfl rfl rfl R.syn
+  tok := R.tok
+  linesG := LinesG.congr (h := h) (h' := { h with retracts := l' }) R.linesG rfl
+  next := R.next
+  module := R.module
+  go := R.go
+  toolchain := R.toolchain
+  godebug := R.godebug
+  require := R.require
+  exclude := R.exclude
+  replace := R.replace
+  retract := hr
+  tool := R.tool
+
+theorem RepFAt.withTool {h : Edit.Heap} {o : Edit.File} {e : Modfile.Edit.EFile} (R : RepFAt h o e) {l' : List Edit.Tool} {ps' : List Int} {xs' : List Modfile.Tool}
+    (hr : REnts l' toolG (·.lineId) h.lines.length ps' xs') :
+    RepFAt { h with tools := l' } { o with Tool := ps' } { e with f := { e.f with tool := xs' } } where
+  syn := RepSyn.congr (h := h) (h' := { h with tools := l' }) rfl rfl rfl rfl R.syn
+  tok := R.tok
+  linesG := LinesG.congr (h := h) (h' := { h with tools := l' }) R.linesG rfl
+  next := R.next
+  module := R.module
+  go := R.go
+  toolchain := R.toolchain
+  godebug := R.godebug
+  require := R.require
+  exclude := R.exclude
+  replace := R.replace
+  retract := R.retract
+  tool := hr
+
+theorem RepWAt.withGo {h : Edit.Heap} {o : Edit.WorkFile} {e : Modfile.Edit.EWork} (R : RepWAt h o e) {l' : List Edit.Go} {p' : Int} {x' : Option Modfile.Go}
+    (hr : ROpt l' goG (·.lineId) h.lines.length p' x') :
+    RepWAt { h with gos := l' } { o with Go := p' } { e with f := { e.f with go := x' } } where
+  syn := RepSyn.congr (h := h) (h' := { h with gos := l' }) rfl rfl rfl rfl R.syn
+  tok := R.tok
+  linesG := LinesG.congr (h := h) (h' := { h with gos := l' }) R.linesG rfl
+  next := R.next
+  go := hr
+  toolchain := R.toolchain
+  godebug := R.godebug
+  use := R.use
+  replace := R.replace
+
+theorem RepWAt.withToolchain {h : Edit.Heap} {o : Edit.WorkFile} {e : Modfile.Edit.EWork} (R : RepWAt h o e) {l' : List Edit.Toolchain} {p' : Int} {x' : Option Modfile.Toolchain}
+    (hr : ROpt l' toolchainG (·.lineId) h.lines.length p' x') :
+    RepWAt { h with toolchains := l' } { o with Toolchain := p' } { e with f := { e.f with toolchain := x' } } where
+  syn := RepSyn.congr (h := h) (h' := { h with toolchains := l' }) rfl rfl rfl rfl R.syn
+  tok := R.tok
+  linesG := LinesG.congr (h := h) (h' := { h with toolchains := l' }) R.linesG rfl
+  next := R.next
+  go := R.go
+  toolchain := hr
+  godebug := R.godebug
+  use := R.use
+  replace := R.replace
+
+theorem RepWAt.withGodebug {h : Edit.Heap} {o : Edit.WorkFile} {e : Modfile.Edit.EWork} (R : RepWAt h o e) {l' : List Edit.Godebug} {ps' : List Int} {xs' : List Modfile.Godebug}
+    (hr : REnts l' godebugG (·.lineId) h.lines.length ps' xs') :
+    RepWAt { h with godebugs := l' } { o with Godebug := ps' } { e with f := { e.f with godebug := xs' } } where
+  syn := RepSyn.congr (h := h) (h' := { h with godebugs := l' }) rfl rfl rfl rfl R.syn
+  tok := R.tok
+  linesG := LinesG.congr (h := h) (h' := { h with godebugs := l' }) R.linesG rfl
+  next := R.next
+  go := R.go
+  toolchain := R.toolchain
+  godebug := hr
+  use := R.use
+  replace := R.replace
+
+theorem RepWAt.withUse {h : Edit.Heap} {o : Edit.WorkFile} {e : Modfile.Edit.EWork} (R : RepWAt h o e) {l' : List Edit.Use} {ps' : List Int} {xs' : List Modfile.Use}
+    (hr : REnts l' useG (·.lineId) h.lines.length ps' xs') :
+    RepWAt { h with uses := l' } { o with Use := ps' } { e with f := { e.f with use := xs' } } where
+  syn := RepSyn.congr (h := h) (h' := { h with uses := l' }) rfl rfl rfl rfl R.syn
+  tok := R.tok
+  linesG := LinesG.congr (h := h) (h' := { h with uses := l' }) R.linesG rfl
+  next := R.next
+  go := R.go
+  toolchain := R.toolchain
+  godebug := R.godebug
+  use := hr
+  replace := R.replace
+
+theorem RepWAt.withReplace {h : Edit.Heap} {o : Edit.WorkFile} {e : Modfile.Edit.EWork} (R : RepWAt h o e) {l' : List Edit.Replace} {ps' : List Int} {xs' : List Modfile.Replace}
+    (hr : REnts l' replaceG (·.lineId) h.lines.length ps' xs') :
+    RepWAt { h with replaces := l' } { o with Replace := ps' } { e with f := { e.f with replace := xs' } } where
+  syn := RepSyn.congr (h := h) (h' := { h with replaces := l' }) rfl rfl rfl rfl R.syn
+  tok := R.tok
+  linesG := LinesG.congr (h := h) (h' := { h with replaces := l' }) R.linesG rfl
+  next := R.next
+  go := R.go
+  toolchain := R.toolchain
+  godebug := R.godebug
+  use := R.use
+  replace := hr
+
+/-! building blocks for typed lists -/
+
+/-- a new object is allocated and its pointer appended (`f.Require = append(f.Require, &Require{…})`) -/
+theorem REnts.push {α β : Type} {objs : List α} {g : β → α} {id : β → Nat} {nl : Nat} {ps : List Int} {xs : List β}
+    (r : REnts objs g id nl ps xs) (y : β) (hy : id y ≤ nl) :
+    REnts (objs ++ [g y]) g id nl (ps ++ [((objs.length + 1 : Nat) : Int)]) (xs ++ [y]) := by
+  refine ⟨?_, ?_⟩
+  · refine REntsL.append (r.rel.mono (fun p v x => heapGet_alloc_old _ x) (Nat.le_refl _)) ?_
+    exact ⟨⟨heapGet_alloc_new _ _, hy⟩, trivial⟩
+  · refine List.nodup_append.2 ⟨r.nodup, by simp, ?_⟩
+    intro a ha b hb hab
+    simp only [List.mem_singleton] at hb
+    subst hab hb
+    have := (r.rel.mem_alloc _ ha).2
+    omega
+
+/-- the object at position `i` is overwritten -/
+theorem REnts.set {α β : Type} {objs : List α} {g : β → α} {id : β → Nat} {nl : Nat} {ps : List Int} {xs : List β}
+    (r : REnts objs g id nl ps xs) {i : Nat} {p : Int} (hi : ps[i]? = some p) (y : β) (hy : id y ≤ nl) :
+    REnts (objs.set (p.toNat - 1) (g y)) g id nl ps (xs.set i y) := ⟨r.rel.setAt r.nodup i p y hi hy, r.nodup⟩
+
+theorem REnts.get {α β : Type} {objs : List α} {g : β → α} {id : β → Nat} {nl : Nat} {ps : List Int} {xs : List β}
+    (r : REnts objs g id nl ps xs) {i : Nat} {p : Int} {x : β} (hi : ps[i]? = some p) (hx : xs[i]? = some x) :
+    heapGet objs p = .ok (g x) ∧ id x ≤ nl := r.rel.get i p x hi hx
+
+theorem REnts.length {α β : Type} {objs : List α} {g : β → α} {id : β → Nat} {nl : Nat} {ps : List Int} {xs : List β}
+    (r : REnts objs g id nl ps xs) : ps.length = xs.length := r.rel.length
+
+theorem REnts.nil {α β : Type} (objs : List α) (g : β → α) (id : β → Nat) (nl : Nat) : REnts objs g id nl [] [] :=
+  ⟨trivial, List.nodup_nil⟩
+
 
 end ModVerif.Tie.FnEditRep
